@@ -35,12 +35,15 @@ class Infeasible(Exception):
 
 
 class Model:
-    def __init__(self, prompt, a, b):
+    def __init__(self, prompt, a, b, shown_prompt=None):
+        """prompt: the prompt in force when the word ends; shown_prompt: the one on the terminal when it starts
+        (they differ only for `Cli::set_prompt`)"""
+        shown = prompt if shown_prompt is None else shown_prompt
         self.P = list(prompt)
         self.text = list(a + b)
         self.cur = len(a)
-        self.line = list(prompt) + list(a + b)
-        self.col = len(prompt) + len(a)
+        self.line = list(shown) + list(a + b)
+        self.col = len(shown) + len(a)
         self.unknown = False
         self.vals = {}
 
@@ -98,7 +101,8 @@ def completions(m):
     (text without the blanks right of the cursor when the cursor is inside) extended by S and maybe a blank."""
     yield None
     text = "".join(m.text)
-    stripped = text.rstrip(' ') if m.cur < len(text) else text
+    # only the blanks to the right of the cursor are set aside (and only when the cursor is inside the text)
+    stripped = (text[:m.cur] + text[m.cur:].rstrip(' ')) if m.cur < len(text) else text
     req = stripped.lstrip(' ')
     if not req or ' ' in req:
         return
@@ -109,8 +113,11 @@ def completions(m):
 
 def run_word(word, status, prompt, a, b, choices):
     """-> list of (ok, why) for each nondeterministic resolution; raises Infeasible when guards contradict the state"""
-    m = Model(prompt, a, b)
+    m = Model(prompt, a, b, choices.get('shown_prompt'))
     # expand counted loops: REPEAT(x..y){ body } -> body repeated (y - x) times, evaluated when reached
+    # a symbolic editor quantity is named after the position of its event in the word (`cursor#4` = the value `E.cursor`
+    # returned as 5th event); loop expansion below must not disturb that numbering
+    origin = list(range(len(word)))
     seq = list(word)
     i = -1
     while True:
@@ -132,12 +139,13 @@ def run_word(word, status, prompt, a, b, choices):
             body = seq[i + 1:j - 1]
             n = max(0, m.vals[y] - m.vals[x])
             seq[i:j] = body * n
+            origin[i:j] = origin[i + 1:j - 1] * n
             i -= 1
             continue
-        if lab.startswith('E.cursor#'):
-            m.vals['cursor#' + lab.split('#')[1]] = m.cur
-        elif lab.startswith('E.len#'):
-            m.vals['len#' + lab.split('#')[1]] = len(m.text)
+        if lab == 'E.cursor':
+            m.vals['cursor#%d' % origin[i]] = m.cur
+        elif lab == 'E.len':
+            m.vals['len#%d' % origin[i]] = len(m.text)
         elif lab.startswith('IF('):
             body, truth = lab[3:].rsplit('):', 1)
             x, op, y = body.split(' ')
@@ -251,6 +259,9 @@ def check_words(res, cfg, who, words):
                 ch_list = [{'recalled': r} for r in ('', 'r', 'rs t')]
             if 'E.autocompletion' in word:
                 ch_list = [{'completion': c} for c in completions(Model(prompt, a, b))]
+            if who.endswith('::set_prompt'):
+                # the prompt being replaced: shorter, equal, longer than the new one
+                ch_list = [dict(c, shown_prompt=old) for c in ch_list for old in ('', '$ ', 'cfg> ')]
             for ch in ch_list:
                 try:
                     ok, why = run_word(word, status, prompt, a, b, ch)
@@ -267,6 +278,10 @@ def check_words(res, cfg, who, words):
         res.distinct.add("%s|%s|%s" % (cfg, who, " ".join(word)))
         if not hit and word:
             res.extra.setdefault('words_without_feasible_instance', []).append("%s: %s" % (who, " ".join(word)))
+            if not any(l.startswith(('IF(', 'E.move_', 'REPEAT(')) for l in word):
+                # no guard could have made it infeasible: it was never evaluated, so nothing is decided about it
+                res.add_violation(dict(rule='C06.sync', key="C06|sync|%s|unevaluated|%s" % (who, " ".join(word)[:120]),
+                                       msg="%s [%s]: the path `%s` could not be evaluated on any start shape" % (who, cfg, " ".join(word))))
     if len(res.samples) < 10 and words:
         w0 = sorted(words)[0]
         res.samples.append("%s: %s" % (who, " ".join(w0[0])))
